@@ -54,6 +54,12 @@ type Plan struct {
 	ParkAfter *Addr
 	// Err overrides the injected error (default ErrInjected).
 	Err error
+	// Hook: when the addressed call arrives (HookAfter false: before it is executed) or has returned
+	// (HookAfter true) HookFn is called once, on the calling goroutine — e.g. to cancel the caller's
+	// context at an exact point of an operation.
+	Hook      *Addr
+	HookAfter bool
+	HookFn    func()
 }
 
 // Recorder numbers, records, fails and parks calls. One per Cluster, shared by all wrappers.
@@ -106,6 +112,16 @@ func (r *Recorder) enter(kind, node, wid, arg string) (idx int, err error) {
 		ev.Ord = r.counts[k]
 		r.counts[k]++
 	}
+	var hookFn func()
+	if !bg && r.plan.Hook != nil && *r.plan.Hook == ev.Addr && r.plan.HookFn != nil && !r.plan.HookAfter {
+		hookFn = r.plan.HookFn
+	}
+	if hookFn != nil {
+		r.mu.Unlock()
+		hookFn()
+		r.mu.Lock()
+		ev.Seq = len(r.events)
+	}
 	park := r.crashed
 	if !bg && !park && r.plan.ParkFrom != nil && *r.plan.ParkFrom == ev.Addr {
 		r.crashed, park = true, true
@@ -147,11 +163,18 @@ func (r *Recorder) done(idx int, err error) {
 		return
 	}
 	r.mu.Lock()
+	var hookFn func()
 	if idx < len(r.events) {
 		r.events[idx].done = true
 		r.events[idx].Failed = err != nil
+		if r.plan.Hook != nil && r.plan.HookAfter && r.plan.HookFn != nil && *r.plan.Hook == r.events[idx].Addr && !r.events[idx].BG {
+			hookFn = r.plan.HookFn
+		}
 	}
 	r.mu.Unlock()
+	if hookFn != nil {
+		hookFn()
+	}
 }
 
 // setWID attaches a workload id learnt from the call's result (engine create).
